@@ -239,8 +239,9 @@ def run_side(binary, cases, jobs=None, per_case_process=False):
     if per_case_process:
         chunks = [[i] for i in range(n)]
     else:
-        size = max(1, (n + jobs - 1) // jobs)
-        chunks = [list(range(i, min(n, i + size))) for i in range(0, n, size)]
+        # round-robin: generators emit their expensive families as contiguous blocks, which one worker would otherwise get whole
+        k = max(1, min(jobs, n))
+        chunks = [list(range(j, n, k)) for j in range(k)]
     results = [None] * n
 
     def text_of(idx):
